@@ -2,6 +2,7 @@
 from __future__ import annotations
 
 import ast
+import os
 
 import z3
 
@@ -39,6 +40,41 @@ def _free_consts(e):
     return out
 
 
+_PAT_OK_KINDS = None
+
+
+def _pattern_ok(t, var) -> bool:
+    """t may be used inside a quantifier pattern: built from uninterpreted symbols, selects and datatype accessors/constructors only."""
+    global _PAT_OK_KINDS
+    if _PAT_OK_KINDS is None:
+        _PAT_OK_KINDS = {z3.Z3_OP_UNINTERPRETED, z3.Z3_OP_SELECT, z3.Z3_OP_DT_ACCESSOR, z3.Z3_OP_DT_CONSTRUCTOR}
+    stack = [t]
+    while stack:
+        x = stack.pop()
+        if x.eq(var):
+            continue
+        if not z3.is_app(x) or x.decl().kind() not in _PAT_OK_KINDS:
+            return False
+        stack.extend(x.children())
+    return True
+
+
+def select_patterns(term, var, limit=3) -> list:
+    """Sub-terms `Select(a, var)` of term usable as (alternative) triggers for a quantifier over var."""
+    out, seen, stack = [], set(), [term]
+    while stack and len(out) < limit:
+        x = stack.pop()
+        if x.get_id() in seen or z3.is_quantifier(x) or not z3.is_app(x):
+            continue
+        seen.add(x.get_id())
+        if x.decl().kind() == z3.Z3_OP_SELECT and x.arg(1).eq(var) and not any(c.eq(var) for c in _free_consts(x.arg(0))) and _pattern_ok(x.arg(0), var):
+            if not any(o.eq(x) for o in out):
+                out.append(x)
+            continue
+        stack.extend(x.children())
+    return out
+
+
 class CallMixin(ExprMixin):
 
     # ------------------------------------------------------------------ dispatch
@@ -49,6 +85,14 @@ class CallMixin(ExprMixin):
         return ast.unparse(n.func)
 
     def eval_call(self, n: ast.Call, awaited: bool) -> V:
+        r = self._eval_call(n, awaited)
+        if self.C is not None and not self.spec_mode and self.C.callsites:
+            cs = self.C.callsites.get(ast.unparse(n)) or self.C.callsites.get(self.call_text(n))
+            if cs is not None and cs.get('post') is not None and not (cs.get('awaited_only', True) and not awaited and r.ty.kind == 'py'):
+                cs['post'](self, n, r)       # ghost bookkeeping after the call has returned normally
+        return r
+
+    def _eval_call(self, n: ast.Call, awaited: bool) -> V:
         text = self.call_text(n)
         full = ast.unparse(n)
         if text in DROPPED_CALLS:
@@ -824,9 +868,12 @@ class CallMixin(ExprMixin):
         self.assume(z3.And(0 <= m, m <= n))
         self.assume(z3.ForAll([k], z3.Implies(z3.And(0 <= k, k < m), z3.And(
             0 <= sk, sk < n, z3.substitute(cond, (j, sk)), z3.Select(oel, k) == z3.substitute(to_smt(elt), (j, sk)), z3.Select(rho, sk) == k)),
-            patterns=[z3.Select(sig, k)]))
+            patterns=[z3.Select(sig, k), z3.Select(oel, k)]))
+        # alternative triggers: a source element mentioned by the filter condition (the proof "S[j] passes the filter, so it is in the
+        # result" starts from such a term; rho[j] itself never occurs in a goal)
+        alt = select_patterns(z3.simplify(cond), j) if os.environ.get('PYVC_ALT_PATTERNS', '1') == '1' else []
         self.assume(z3.ForAll([j], z3.Implies(z3.And(0 <= j, j < n, cond), z3.And(0 <= z3.Select(rho, j), z3.Select(rho, j) < m, z3.Select(sig, z3.Select(rho, j)) == j)),
-                                 patterns=[z3.Select(rho, j)]))
+                                 patterns=[z3.Select(rho, j)] + alt))
         self.assume(z3.ForAll([k, k2], z3.Implies(z3.And(0 <= k, k < k2, k2 < m), z3.Select(sig, k) < z3.Select(sig, k2)),
                                  patterns=[z3.MultiPattern(z3.Select(sig, k), z3.Select(sig, k2))]))
         out.py = ('filtered', sig, rho, src, j, cond)
@@ -873,8 +920,9 @@ class CallMixin(ExprMixin):
         keys, cnt, has, val, idx = self.dict_parts(out)
         kk = z3.Const(fresh_name('k'), kt.sort())
         self.assume(cnt == n)
+        alt = select_patterns(z3.simplify(keyat(i)), i) if os.environ.get('PYVC_ALT_PATTERNS', '1') == '1' else []
         self.assume(z3.ForAll([i], z3.Implies(z3.And(0 <= i, i < n), z3.And(z3.Select(keys, i) == keyat(i),
                                                                                   z3.Select(val, keyat(i)) == valat(i), z3.Select(idx, keyat(i)) == i)),
-                                 patterns=[z3.Select(keys, i)]))
+                                 patterns=[z3.Select(keys, i)] + alt))
         out.py = ('from_pairs', pairs)
         return out
